@@ -172,3 +172,18 @@ def reach_text(func, expr):
             if len(ds) == 1 and ds[0][0] == 'assign' and isinstance(ds[0][2], ast.AST):
                 out = _re.sub(r'(?<![\w.])%s(?!\w)' % _re.escape(m.id), '(' + ast.unparse(ds[0][2]) + ')', out)
     return out
+
+
+def is_space_classes(model):
+    """class names that Buffer.is_space() accepts: members of a tuple / list / set display, or the right-hand
+    sides of == / is comparisons, in the body of the function"""
+    f = model.func('scanner.Buffer.is_space')
+    names = []
+    for n in ast.walk(f.node):
+        if isinstance(n, (ast.Tuple, ast.List, ast.Set)):
+            names += [ast.unparse(x).split('.')[-1] for x in n.elts]
+        elif isinstance(n, ast.Compare) and len(n.ops) == 1 and isinstance(n.ops[0], (ast.Eq, ast.Is)):
+            c = ast.unparse(n.comparators[0]).split('.')[-1]
+            if c.endswith('Token'):
+                names.append(c)
+    return [x for x in names if x.endswith('Token')]
